@@ -31,7 +31,14 @@ Inductive amethod := MBasic | MPost | MPKJWT | MNone.
 Inductive apptype := AWeb | ANative | AUserAgent.
 Inductive grant := GCode | GRefresh | GCC | GBearer | GTE | GDevice | GImplicit | GUnknown | GMissing.
 Inductive seck := SRight | SWrong
-                | SEmpty.   (* the empty string: Basic "id:" / client_secret= *)
+                | SEmpty    (* the empty string: Basic "id:" / client_secret= *)
+                | SBlank    (* not empty, but nothing except white space once the transport encoding is
+                               removed: " ", tab, LF, CR LF, NBSP ... sent raw, as %20 %09 %0A ..., or as "+" *)
+                | SNear.    (* a near miss of the right secret: surrounding white space, other letter case,
+                               Unicode case-fold twins, a trailing slash, one byte more or fewer *)
+(* where a near miss of X's client id travels *)
+Inductive idslot := IdBasic | IdForm
+                  | IdAssert.   (* issuer and subject of an otherwise valid client assertion signed with X's key *)
 Inductive atype := TJWT | TNone | TWrong.   (* client_assertion_type: the jwt-bearer urn / absent / something else *)
 Inductive assk := AOk | AWrongKey | AWrongAud.
 
@@ -57,8 +64,15 @@ Inductive pres :=
 | PXAssert (v : victim)          (* valid assertion of X, client_id=Y in the form *)
 | PXPost (v : victim)            (* client_id=X + right client_secret of X in the form, Basic Y:wrong secret *)
 | PXPostId (v : victim)          (* client_id=Y + right client_secret of X in the form *)
-| PXDup (v : victim).            (* body: client_id=X + right client_secret of X; URL query: client_id=Y *)
+| PXDup (v : victim)             (* body: client_id=X + right client_secret of X; URL query: client_id=Y *)
 (* v: how the second client Y is registered *)
+(* the id sent is not X's id but a near miss of it (surrounding white space - raw, %XX or "+" -,
+   other letter case, case-fold twins, trailing slash, one byte more or fewer, white space only,
+   a keyword such as null): that string is nobody's id.  Sent as Basic id':s, as
+   client_id=id' & client_secret=s (s = SEmpty: no secret), or as iss = sub = id' of a client
+   assertion signed with X's key (no secret sent).  With the jwt-bearer grant the grant
+   assertion is issued by id' as well. *)
+| PNearId (sl : idslot) (s : seck).
 
 Record cfg := mkCfg { f_post : bool; f_pkjwt : bool; f_refresh : bool;   (* op.Config flags *)
                       c_cc : bool; c_te : bool; c_dev : bool }.          (* optional storage capabilities *)
@@ -76,10 +90,12 @@ Record placement := mkPl { pl_grant : gplace;   (* grant_type *)
                            pl_client : place;   (* client_id, client_secret, client_assertion(_type) *)
                            pl_art : place }.    (* code, refresh_token, device_code, subject_token, token, ... *)
 
-(* what the same provider instance served immediately before: nothing, or an introspection
-   request of a third client P with its full credential.  No guard keeps state between requests,
+(* what the same provider instance served immediately before: nothing, an introspection
+   request of a third client P with its full credential, or X's own fully credentialed request.  No guard keeps state between requests,
    so the model does not read it. *)
-Inductive prevk := NoPrev | PrevAssert | PrevBasic | PrevPost.
+Inductive prevk := NoPrev | PrevAssert | PrevBasic | PrevPost
+                | PrevSelf.   (* X's own request on the same endpoint and grant, with the full credential of its
+                                 registered method and an artefact of its own, immediately before *)
 
 Record input := mkInput { i_router : router; i_endpoint : endpoint; i_cfg : cfg;
                           i_reg : reg; i_pres : pres; i_grant : grant; i_pl : placement;
@@ -115,6 +131,7 @@ Definition storage_secret_ok (rg : reg) (s : seck) : bool :=
                 | SRight => has_secret (r_meth rg)
                 | SWrong => false
                 | SEmpty => negb (has_secret (r_meth rg))
+                | SBlank | SNear => false   (* compared byte by byte: " " is not "", "secret " is not "secret" *)
                 end.
 (* ClientBasicAuth and op.AuthorizeClientIDSecret refuse an empty secret before asking the
    storage (fix Fxx-C05-5) *)
@@ -137,6 +154,9 @@ Definition registered (rg : reg) (g : grant) : bool := existsb (grant_eqb g) (r_
 Definition all_grants := [GCode; GRefresh; GCC; GBearer; GTE; GDevice; GImplicit].
 Definition victim_reg (v : victim) :=
   mkReg true (v_meth v) AWeb (if v_grants v then all_grants else []) false.
+(* a near miss of X's id is the id of no registered client, and X's artefacts are not its *)
+Definition nobody_reg := mkReg false MNone AWeb [] false.
+Definition names_nobody (p : pres) : bool := match p with PNearId _ _ => true | _ => false end.
 
 (* ---------------- which part of the request a guard reads.  http.Request.Form holds the body
    values followed by the URL query values, PostForm the body values only; Form.Get / FormValue
@@ -181,11 +201,14 @@ Definition eff_pres (p : pres) : pres :=
   | PXAssert _ => PAssert AOk
   | PXPost _ => PBasic SWrong false
   | PXPostId _ | PXDup _ => PPost SWrong   (* PXDup: the decoders take the last client_id, the query's *)
+  | PNearId IdBasic s => PBasic s false
+  | PNearId IdForm s => PPost s
+  | PNearId IdAssert _ => PAssert AOk
   | _ => p
   end.
 (* the artefact belongs to the client the request names *)
 Definition own_artefact (p : pres) : bool :=
-  match p with PXBasic _ | PXAssert _ => false | _ => true end.
+  match p with PXBasic _ | PXAssert _ | PNearId _ _ => false | _ => true end.
 
 (* ---------------- what the parsers see *)
 
